@@ -40,7 +40,7 @@ MatOf(mem, M) == Mat(M.nrows, M.ncols, ValueOf(mem, M))
 FrameOK(m0, m1, D) == \A x \in Addrs : \A b \in Bits : (<<x, b>> \notin ViewBits(D)) => ((b \in m0[x]) <=> (b \in m1[x]))
 NoChange(m0, m1) == \A x \in Addrs : m0[x] = m1[x]
 
-Kinds == {"copy", "row_swap", "row_add_offset", "row_clear_offset", "bits", "concat", "stack", "submatrix", "set_ui", "add", "observers"}
+Kinds == {"perm", "copy", "row_swap", "row_add_offset", "row_clear_offset", "bits", "concat", "stack", "submatrix", "set_ui", "add", "observers"}
 
 \* per-kind check for source window S (in the source region) and memory index a, destination fill f
 CheckCopy(S, m0) ==
@@ -118,6 +118,19 @@ CheckObservers(S, m0) ==
   /\ WFirstZeroRow(m0, S) = FirstZeroRowSem(MatOf(m0, S))
   /\ \A bw \in 0 .. 2 : LET B == Win(SRC, 0, bw, S.nrows, S.ncols) IN ValidSrc(B) => (WEqual(m0, S, B) <=> (EqualSem(MatOf(m0, S), MatOf(m0, B)) = 1))
 
+\* all LAPACK swap sequences of the window's column count (and the ones shorter by one), both directions, start rows 0 and 1
+LapackPerms(len, n) == {p \in [1 .. len -> 0 .. n - 1] : \A i \in 1 .. len : p[i] >= i - 1 /\ p[i] < len}
+CheckPerm(S, m0) ==
+  S.ncols <= 5 =>
+  \A len \in {S.ncols, S.ncols - 1} : len >= 1 =>
+    \A P \in LapackPerms(len, S.ncols), sr \in 0 .. 1 :
+       /\ LET m1 == ApplyPRightEven(m0, S, P, TRUE, sr)
+              want == IF sr >= S.nrows THEN MatOf(m0, S) ELSE Embed(MatOf(m0, S), sr, 0, ApplyPRightSem(Sub(MatOf(m0, S), sr, 0, S.nrows - sr, S.ncols), P))
+          IN Eq(MatOf(m1, S), want) /\ FrameOK(m0, m1, S)
+       /\ LET m1 == ApplyPRightEven(m0, S, P, FALSE, sr)
+              want == IF sr >= S.nrows THEN MatOf(m0, S) ELSE Embed(MatOf(m0, S), sr, 0, ApplyPRightTransSem(Sub(MatOf(m0, S), sr, 0, S.nrows - sr, S.ncols), P))
+          IN Eq(MatOf(m1, S), want) /\ FrameOK(m0, m1, S)
+
 Check(kind, S, m0) ==
   CASE kind = "copy" -> CheckCopy(S, m0)
     [] kind = "row_swap" -> CheckRowSwap(S, m0)
@@ -130,6 +143,7 @@ Check(kind, S, m0) ==
     [] kind = "set_ui" -> CheckSetUi(S, m0)
     [] kind = "add" -> CheckAdd(S, m0)
     [] kind = "observers" -> CheckObservers(S, m0)
+    [] kind = "perm" -> CheckPerm(S, m0)
 
 \* Basis contents.  Every primitive except the observers only moves, masks (with masks that do not depend on the
 \* contents) and XORs bits, so each output bit is an affine GF(2)-linear function of the memory; the GF(2)-level
